@@ -2,6 +2,13 @@
 """Writes /verif/seeded/README.md from seeded/*/meta.json, result.json and the notes below."""
 import glob, json, os
 NOTES = {
+    'C02_1': 'missed at first (no consumer ever joined late; C02_Payload did not compare the id a frame was published under with the id it was delivered as); C02 gained the JoinLate topology with a late-join fault and the id comparison - caught since',
+    'C02_2': 'missed at first (no two topic names were prefixes of one another); C02 gained the PrefixTopics topology - caught since (C02_Hidden)',
+    'C01_1': 'missed at first (single-topic branches only); C01 gained TeeRejoinMulti (topic set varying per id, varying topic published first, lost publishes) and the design mutation inval_complete_only - caught since',
+    'C01_2': 'missed at first (every rejoin was a sink, so recv() never got a state); C01 gained TeeRejoinRelay and a stored schedule (spec/proto/schedules/C01_relay_rejoin_amnesia.json) - caught since',
+    'C03_1': 'missed at first (no filter id was a prefix of another); C03 gained TeeNames with the shorter-named required consumer joining late - caught since',
+    'C03_2': 'missed at first (no branch was ever completed by the topics message alone next to a slow branch); C03 gained TeeRejoinAbsent - caught since',
+    'C07_2': 'missed at first (single-topic frames only); C07 gained Balance2Multi, the design mutation bal_unlock_on_enter and its TLC counterexample as a stored schedule - caught since (the rejoin dies of the duplicate-topic RuntimeError after mixing ids)',
     'C04_2': 'missed at first (no consumer listed an ephemeral source before a synchronized one); C04 gained the EphFirst stall scenario, C05 its conformance replay - caught since',
     'C17_1': 'missed at first (the hazardous (side, bound) pairs were outside the enumerated and sampled domains); C17 gained the float-hazard pair family (vlib/c17.py gen_extra) - caught since',
     'C05_2': 'missed at first (no topology with a multi-topic ephemeral source next to another source); C05 gained the EphMulti topology (vlib/topos.py) in conformance and random runs - caught since (C05_EphComplete)',
